@@ -9,6 +9,7 @@ package c15
 import (
 	"context"
 	"crypto/sha256"
+	"crypto/x509"
 	"flag"
 	"fmt"
 	"os"
@@ -228,6 +229,34 @@ func (m *machine) set(rt *rapid.T) {
 	i := m.pickURL(rt)
 	spec := drawBundle(rt, &m.counter)
 	base, delta := mintBundle(m.now, spec)
+	// a variant of what is stored under this URL right now: byte-identical base CRL with the
+	// delta dropped, replaced or kept (a store that believes "nothing changed" must still end
+	// up with exactly the bundle that was stored last)
+	if prevStates := m.model[i]; len(prevStates) == 1 && prevStates[0].kind == "stored" && prevStates[0].st != nil {
+		if variant := rp.Pick(rt, "variantOfStored", "", "", "", "same-base-no-delta", "same-base-new-delta", "identical"); variant != "" {
+			pst := prevStates[0].st
+			if pb, err := x509.ParseRevocationList(pst.base); err == nil {
+				base, spec.Base = pb, pst.spec.Base
+				switch variant {
+				case "same-base-no-delta":
+					delta, spec.Delta = nil, nil
+				case "same-base-new-delta":
+					m.counter += 2
+					d := drawCRLSpec(rt, "variantDelta", m.counter+1)
+					spec.Delta = &d
+					delta = mintCRL(m.now, d, spec.Base.Number)
+				case "identical":
+					delta, spec.Delta = nil, nil
+					if pst.delta != nil {
+						if pd, err := x509.ParseRevocationList(pst.delta); err == nil {
+							delta, spec.Delta = pd, pst.spec.Delta
+						}
+					}
+				}
+				m.cls["set-variant="+variant]++
+			}
+		}
+	}
 	st := &stored{spec: spec, base: base.Raw}
 	bundle := &corecrl.Bundle{BaseCRL: base}
 	if delta != nil {
